@@ -161,3 +161,271 @@ def c03(tapes, params):
     res['nontrivial'] = drv.nontrivial >= 3 and not res['violations'] or bool(res['violations'])
     res['nreq'] = drv.nreq
     return res
+
+
+# ---------------------------------------------------------------------------- C04
+def walk_read(drv, s, tag, idx, n, ref=None, noise=None):
+    """Drive a Read Tag Fragmented transfer of [idx, idx+n) to completion; check every fragment
+    against the invariants C04 states.  Returns the list of values."""
+    w = drv.w
+    tname = tag.tname
+    size = elem_size(tname)
+    per = max(1, (w.budget + size - 1) // size)         # budget rounded up to a whole element
+    got = b''
+    frags = 0
+    ref = ref or ('name', tag.name)
+    while True:
+        op = {'kind': 'readfrag', 'ref': ref, 'index': idx, 'elements': n, 'offset': len(got)}
+        f, rep = drv.issue(s, op_request(op))
+        frags += 1
+        if rep is None:
+            w.violation('c04-no-reply', 'walk of %s[%d..%d) lost its session at offset %d' % (tag.name, idx, idx + n, len(got)),
+                        ttype=tname)
+            raise Violation()
+        r = rc.dec_reply(rep)
+        if r.service != (rc.READ_FRAG | 0x80) or r.status not in (0x00, 0x06):
+            w.violation('c04-fragment-status', 'walk of %s[%d..%d) budget %d: fragment %d at offset %d answered status 0x%02x ext %s' % (
+                tag.name, idx, idx + n, w.budget, frags, len(got), r.status, r.ext), ttype=tname)
+            raise Violation()
+        code = struct_u16(r.payload[:2])
+        data = r.payload[2:]
+        k, rem = divmod(len(data), size)
+        if code != rc.TYPE_CODE[tname] or rem or k < 1 or k > per:
+            w.violation('c04-fragment-size', 'walk of %s[%d..%d) budget %d size %d: fragment %d carries type 0x%x, %d bytes '
+                        '(%d elements + %d bytes); allowed 1..%d whole elements' % (
+                            tag.name, idx, idx + n, w.budget, size, frags, code, len(data), k, rem, per), ttype=tname)
+            raise Violation()
+        got += data
+        total = len(got) // size
+        if total > n:
+            w.violation('c04-overrun', 'walk of %s[%d..%d): received %d elements' % (tag.name, idx, idx + n, total), ttype=tname)
+            raise Violation()
+        done = total == n
+        if (r.status == 0x00) != done:
+            w.violation('c04-completion-status', 'walk of %s[%d..%d) budget %d: fragment %d status 0x%02x with %d of %d elements received' % (
+                tag.name, idx, idx + n, w.budget, frags, r.status, total, n), ttype=tname)
+            raise Violation()
+        if done:
+            break
+        if noise is not None:
+            noise()
+    want = w.model.store[tag.sid][idx:idx + n]
+    vals = rc.dec_elems(tname, got)
+    if rc.enc_elems(tname, want) != got:
+        bad = [(i, a, b) for i, (a, b) in enumerate(zip(vals, want)) if a != b][:4]
+        w.violation('c04-reassembly', 'walk of %s[%d..%d) budget %d in %d fragments: differences (index, got, want) %r' % (
+            tag.name, idx, idx + n, w.budget, frags, bad), ttype=tname)
+        raise Violation()
+    w.sched.probe('c04_fragments', frags)
+    if frags > 1:
+        w.sched.probe('c04_multi_fragment_walks')
+    if n % per == 0:
+        w.sched.probe('c04_range_end_on_budget_boundary')
+    return vals
+
+
+def struct_u16(b):
+    return b[0] | (b[1] << 8) if len(b) >= 2 else -1
+
+
+def tile_write(drv, s, tag, idx, n, unique, noise=None):
+    """Tile [idx, idx+n) with Write Tag Fragmented pieces of tape-chosen sizes (in order)."""
+    w = drv.w
+    g = w.gen
+    size = elem_size(tag.tname)
+    pos = 0
+    pieces = 0
+    from .enip_base import gen_fit
+    while pos < n:
+        k = 1 + g.draw(min(n - pos, 1 + g.choice([1, 3, 10, 60], 'piecemax')), 'piece')
+        k = min(k, n - pos)
+        vals = [gen_fit(g, tag.tname, tag.tname, unique, True) for _ in range(k)]
+        op = {'kind': 'writefrag', 'ref': ('name', tag.name), 'index': idx, 'elements': n, 'offset': pos * size,
+              'tname': tag.tname, 'values': vals}
+        exp, rep = drv.do_op(op, s, cls='c04-write-fragment')
+        pos += k
+        pieces += 1
+        if noise is not None:
+            noise()
+    w.sched.probe('c04_write_pieces', pieces)
+
+
+@world('c04')
+def c04(tapes, params):
+    w = EnipWorld(tapes, params)
+    g = w.gen
+    if 'budget' not in params:
+        params['budget'] = g.weighted([(4, g.between(3, 64, 'bsmall')), (2, 488), (1, g.between(65, 600, 'bmid'))], 'budget')
+    w.gen_tags(ntags=g.between(2, 4, 'ntags'), types=FIXED_TYPES, maxlen=params.get('maxlen', 400))
+    w.start_server()
+    unique = {'n': 0}
+    drv = SeqDriver(w, 2)
+    ntransfers = g.between(2, 8, 'ntransfers')
+
+    def driver():
+        drv.open_sessions()
+        tags = sorted(w.model.tags.values(), key=lambda t: t.name)
+
+        def noise():
+            # another session touches *other* tags between fragments; must not matter
+            if len(tags) > 1 and g.chance(1, 3, 'noise?'):
+                other = g.choice([t for t in tags if t.sid != cur[0].sid] or tags, 'noisetag')
+                if other.sid != cur[0].sid:
+                    drv.do_op(gen_op(g, w.model, unique, kinds=['write', 'read'], tag=other, allow_addr=False), drv.sess[1])
+        cur = [tags[0]]
+        for _ in range(ntransfers):
+            tag = g.choice(tags, 'tag')
+            cur[0] = tag
+            idx = g.draw(tag.length, 'idx')
+            n = 1 + g.draw(tag.length - idx, 'cnt')
+            if g.chance(1, 3, 'whole'):
+                idx, n = 0, tag.length
+            if g.chance(1, 2, 'write?'):
+                tile_write(drv, drv.sess[0], tag, idx, n, unique, noise)
+                drv.nontrivial += 1
+            ref = ('name', tag.name)
+            if tag.addr is not None and g.chance(1, 3, 'byaddr'):
+                ref = ('addr', tag.addr)
+            walk_read(drv, drv.sess[0], tag, idx, n, ref=ref, noise=noise)
+            drv.nontrivial += 1
+            w.samples.append({'walk': tag.name, 'type': tag.tname, 'range': [idx, idx + n], 'budget': w.budget})
+        drv.check_state('finally')
+    w.spawn(driver, 'driver')
+    res = w.run()
+    res['nontrivial'] = bool(drv.nontrivial >= 2 or res['violations'])
+    res['nreq'] = drv.nreq
+    return res
+
+
+# ---------------------------------------------------------------------------- C05
+def gen_unknown(g, model):
+    """A request to something that does not exist: unknown tag, unknown object, unknown attribute."""
+    k = g.draw(3, 'unk')
+    tags = sorted(model.tags.values(), key=lambda t: t.name)
+    if k == 0:
+        return {'kind': g.choice(['read', 'write', 'readfrag'], 'uk'), 'ref': ('name', g.choice(['Nope', 'missing.tag', 'Z9'], 'un')),
+                'index': None, 'elements': 1, 'tname': 'INT', 'values': [1], 'offset': 0}, 'tag'
+    addr_tags = [t for t in tags if t.addr is not None]
+    if k == 1 or not addr_tags:
+        # an object that does not exist; the attribute number and payload size are chosen to fit a
+        # tag that does exist elsewhere (so a mis-routed Set Attribute Single would be accepted)
+        t = g.choice(addr_tags or tags, 'uot')
+        a = t.addr[2] if t.addr is not None else 1
+        data = rc.enc_elems(t.tname, [1] * t.length) if t.tname not in STRINGS else b'\x01a'
+        return {'kind': g.choice(['read', 'gas', 'sas', 'write'], 'uk'), 'ref': ('addr', (0x77, g.choice([1, 9], 'ui'), a)),
+                'index': None, 'elements': 1, 'data': data, 'tname': t.tname,
+                'values': [1] if t.tname not in STRINGS else ['a']}, 'object'
+    t = g.choice(addr_tags, 'ut')
+    c, i, a = t.addr
+    free = [x for x in (7, 9, 77, 301) if (c, i, x) not in model.addr][0]
+    return {'kind': g.choice(['read', 'write', 'gas', 'sas'], 'uk'), 'ref': ('addr', (c, i, free)), 'index': None,
+            'elements': 1, 'tname': t.tname, 'values': [0] if t.tname not in STRINGS else [''], 'data': b'\x00\x00'}, 'attribute'
+
+
+@world('c05')
+def c05(tapes, params):
+    w = EnipWorld(tapes, params)
+    g = w.gen
+    w.gen_tags(maxlen=params.get('maxlen', 300))
+    w.start_server()
+    unique = {'n': 0}
+    drv = SeqDriver(w, 2, connected_ok=True)
+    nops = g.between(5, params.get('max_ops', 40), 'nops')
+    refused = [0]
+
+    def reopen(i):
+        s = RefSession(w, 's%d' % i)
+        s.connect()
+        s.register()
+        s.connected = False
+        drv.sess[i] = s
+        return s
+
+    def probe_other(i):
+        """The other session must still be served correctly."""
+        o = drv.sess[1 - i]
+        tags = sorted(w.model.tags.values(), key=lambda t: t.name)
+        t = g.choice(tags, 'ptag')
+        op = {'kind': 'read', 'ref': ('name', t.name), 'index': None, 'elements': 1}
+        exp = w.model.apply(op)
+        f, rep = drv.issue(o, op_request(op))
+        if rep is None:
+            w.violation('other-session-broken', 'after a request on %s the other session %s got no reply to %s' % (
+                drv.sess[i].name, o.name, short(op)), ttype=t.tname)
+            raise Violation()
+        bad = check_reply(op, exp, rep)
+        if bad:
+            w.violation('other-session-wrong', '%s: %s -> %s' % (o.name, short(op), bad), ttype=t.tname)
+
+    def driver():
+        drv.open_sessions()
+        drv.check_state('initially')
+        for _ in range(nops):
+            i = g.draw(2, 'sess')
+            s = drv.sess[i]
+            k = g.draw(10, 'opk')
+            if k == 0:
+                op, what = gen_unknown(g, w.model)
+            else:
+                op, what = gen_op(g, w.model, unique, boundary=5, cross=4, fit=False), None
+            exp = w.model.apply(op)
+            w.samples.append({'s': s.name, 'op': short(op), 'exp': exp.describe()})
+            f, rep = drv.issue(s, op_request(op))
+            if exp.unknown and not s.connected:
+                # unknown tag/object outside a connected session: refused at encapsulation level
+                refused[0] += 1
+                if rep is not None:
+                    r = rc.dec_reply(rep)
+                    if r.status in (0, 6):
+                        w.violation('unknown-target-accepted', '%s -> status 0x%02x' % (short(op), r.status), op=op['kind'], what=what)
+                elif f is not None and f.status == 0:
+                    w.violation('unknown-target-accepted', '%s -> frame without error status' % (short(op),), op=op['kind'], what=what)
+                if f is None or f.status != 0:
+                    # the simulator ends a session after an encapsulation-level error
+                    s.close()
+                    s = reopen(i)
+            elif rep is None:
+                w.violation('no-reply', '%s: %s -> %s; expected %s' % (
+                    s.name, short(op), 'no frame' if f is None else 'encapsulation status 0x%x' % f.status, exp.describe()),
+                    op=op['kind'], ttype=drv.tag_type(op), dtype=op.get('tname'))
+                raise Violation()
+            else:
+                if exp.unknown:
+                    exp = type(exp)(status=0x05, ext=(0,)) if op['kind'] not in ('gas', 'sas') else type(exp)(any_error=True)
+                bad = check_reply(op, exp, rep)
+                if bad:
+                    w.violation('reply-mismatch' if exp.ok() else 'refusal-mismatch', '%s: %s -> %s' % (s.name, short(op), bad),
+                                op=op['kind'], ttype=drv.tag_type(op), dtype=op.get('tname'),
+                                vclass=value_class(w.model, op))
+                if not exp.ok():
+                    refused[0] += 1
+                else:
+                    drv.nontrivial += 1
+            # refused or not: the simulator's state must equal the model's (unchanged on refusal)
+            d = w.state_diff()
+            if d:
+                w.violation('state-mismatch', 'after %s (%s): (storage, index, got, want) %r' % (
+                    short(op), exp.describe(), d[:4]), op=op['kind'], ttype=drv.tag_type(op), dtype=op.get('tname'),
+                    vclass=value_class(w.model, op))
+                raise Violation()
+            if g.chance(1, 3, 'probe?'):
+                probe_other(i)
+        drv.read_back_all(cls='written-tag-unreadable')
+    w.spawn(driver, 'driver')
+    res = w.run()
+    res['nontrivial'] = bool((drv.nontrivial >= 2 and refused[0] >= 1) or res['violations'])
+    res['nreq'] = drv.nreq
+    res['notes'] = {'refused': refused[0]}
+    return res
+
+
+def value_class(model, op):
+    """Does the write carry a value the tag's own type cannot represent?"""
+    from ref.model import representable
+    if op['kind'] not in ('write', 'writefrag'):
+        return None
+    sid, found = model.resolve(op['ref'])
+    if sid is None:
+        return None
+    t = model.stype[sid]
+    return 'in-range' if all(representable(t, v) for v in op['values']) else 'out-of-range'
